@@ -123,3 +123,61 @@ impl TcpListener {
         std::future::poll_fn(|cx| self.0.poll_accept(cx)).await
     }
 }
+
+/// Stand-in for `hyper_util::rt::TokioTimer`.
+///
+/// hyper computes its deadlines from `std::time::Instant::now()`, which does
+/// not follow tokio's paused (virtual) clock.  This timer converts each
+/// deadline back into the duration hyper asked for (rounded to 100 ms, far
+/// coarser than the real time that can pass between hyper reading the clock
+/// and calling us) and sleeps that long on tokio's clock, so that hyper's
+/// timeouts run in virtual time and are reproducible.
+#[derive(Clone, Debug, Default)]
+pub struct SimTimer;
+
+impl SimTimer {
+    pub fn new() -> SimTimer {
+        SimTimer
+    }
+}
+
+struct SimSleep(Pin<Box<tokio::time::Sleep>>);
+
+impl std::future::Future for SimSleep {
+    type Output = ();
+    fn poll(mut self: Pin<&mut Self>, cx: &mut Context<'_>) -> Poll<()> {
+        self.0.as_mut().poll(cx)
+    }
+}
+
+impl hyper::rt::Sleep for SimSleep {}
+
+fn virtual_duration(deadline: std::time::Instant) -> std::time::Duration {
+    let d = deadline.saturating_duration_since(std::time::Instant::now());
+    let ms = (d.as_millis() as u64 + 50) / 100 * 100;
+    std::time::Duration::from_millis(ms)
+}
+
+impl hyper::rt::Timer for SimTimer {
+    fn sleep(
+        &self,
+        duration: std::time::Duration,
+    ) -> Pin<Box<dyn hyper::rt::Sleep>> {
+        Box::pin(SimSleep(Box::pin(tokio::time::sleep(duration))))
+    }
+
+    fn sleep_until(
+        &self,
+        deadline: std::time::Instant,
+    ) -> Pin<Box<dyn hyper::rt::Sleep>> {
+        self.sleep(virtual_duration(deadline))
+    }
+
+    fn reset(
+        &self,
+        sleep: &mut Pin<Box<dyn hyper::rt::Sleep>>,
+        new_deadline: std::time::Instant,
+    ) {
+        *sleep = self.sleep_until(new_deadline);
+    }
+}
